@@ -8,9 +8,9 @@ import vcheck as V
 # Run_Gated opens N_scope, so Print M shows bare numerals; accept both spellings
 _M_ITEM = re.compile(r"\((\d+)(?:%N)?,\((\d+)(?:%N)?,(\d+)(?:%N)?,(\w+)\)\)")
 
-OPK = {1: "Process", 2: "Process(flush)", 3: "Process(non-Gateable)", 4: "FlushAll", 5: "Close", 6: "Process(no id)", 7: "concurrent"}
+OPK = {1: "Process", 2: "Process(flush)", 3: "Process(non-Gateable)", 4: "FlushAll", 5: "Close", 6: "Process(no id)", 7: "concurrent", 8: "Reopen/Type/Now"}
 # one signature per code path: FlushAll and Close share theirs, so do Process with and without the flush flag
-SIGOP = {1: "Process", 2: "Process", 3: "Process(non-Gateable)", 4: "FlushAll/Close", 5: "FlushAll/Close", 6: "Process(no id)", 7: "concurrent"}
+SIGOP = {1: "Process", 2: "Process", 3: "Process(non-Gateable)", 4: "FlushAll/Close", 5: "FlushAll/Close", 6: "Process(no id)", 7: "concurrent", 8: "Reopen/Type/Now"}
 # at the first failing call the property-level (observation-only) oracles name the violation; model differences come after
 PRIO = ["KCompositeMutated", "KSentGateable", "KLinger", "KLost", "KDup", "KOrder", "KIdent", "KEmptyId", "KIndex", "KConc", "KRes", "KGated", "KSent", "KCompose", "KComp"]
 
@@ -18,7 +18,7 @@ PRIO = ["KCompositeMutated", "KSentGateable", "KLinger", "KLost", "KDup", "KOrde
 RELEVANT = {
     "C11": lambda k, op: k in ("KRes", "KComp", "KCompose", "KSent", "KGated", "KDup", "KOrder", "KLost", "KIdent", "KEmptyId",
                                "KSentGateable", "KIndex", "KConc", "KCompositeMutated") or (k == "KLinger" and op == 7),
-    "C17": lambda k, op: k in ("KLinger", "KGated", "KSent", "KCompose", "KIndex") or (k == "KRes" and op in (1, 2, 4, 5, 7)) or (k in ("KDup", "KLost") and op == 7),
+    "C17": lambda k, op: k in ("KLinger", "KGated", "KSent", "KCompose", "KIndex") or (k == "KRes" and op in (1, 2, 4, 5, 7, 8)) or (k in ("KDup", "KLost") and op == 7),
 }
 
 ARGS = {
@@ -88,6 +88,12 @@ def gateable_composite_reentry_part(ctx, binp=None):
         ctx.violations.append({"match": "gated:reentry-hang", "replay": rp,
                                "what": "gated.Filter wired to its own Broker: %s did not return within the watchdog (%s, ComposeFrom returns a %s composite): the composite sent "
                                        "while holding the filter's mutex re-entered Process and parked on that mutex" % (r.get("hung_at"), r["scenario"], r["composite"])})
+    lost = [r for r in res if r["scenario"] == "broker-reopen" and not r["hang"] and not r.get("groups_kept_across_broker_reopen", True)]
+    if lost:
+        r = lost[0]
+        rp = V.write_replay(ctx, "gated-broker-reopen", {"kind": "search", "engine": "gatedh-reentry", "scenario": r, "repro": "bin/check replay <this file>"})
+        ctx.violations.append({"match": "gated:KGated@broker-reopen", "replay": rp,
+                               "what": "Broker.Reopen through a pipeline containing the gated.Filter changed what is gated: the open groups were flushed / dropped by Reopen"})
     through = [r for r in res if not r["hang"] and r.get("gateable_composites_routed_by_the_broker", 0) > 0]
     if through:
         r = through[0]
